@@ -22,6 +22,7 @@ UT = "miasm/core/utils.py"
 LEVEL_TEXT = ("Pairing rule on the decoder's CFG (acquire/release on every explicit exit), table agreement for typed reads "
               "(method -> unpack lambda -> struct format), interface contradiction lint, bounds/exception-conversion rule "
               "for every _getbytes override, cache key agreement. Bit extraction arithmetic is not decided.")
+LEVEL_TEXT += ' Also: a file source is positioned at offset - base on every path to the read.'
 ASSUMPTIONS = ["CPython ast; struct format characters B/H/I/Q = 1/2/4/8 bytes, '<' little, '>' big endian",
                "implicit exceptions (those not raised by an explicit statement) are outside the pairing rule"]
 FMT = {"B": 1, "H": 2, "I": 4, "L": 4, "Q": 8}
